@@ -283,6 +283,11 @@ def fam_bitwise(vt, cfg):
     I.append(Inst("rotr_s", VSL, "V", "avel::rotr(a, s)", lambda c: c.pack([rot("r", x, c.args["s"]) for x in c.lanes("a")])))
     I.append(Inst("rotl_v", VV, "V", "avel::rotl(a, b)", lanewise2(lambda c, x, y: rot("l", x, y))))
     I.append(Inst("rotr_v", VV, "V", "avel::rotr(a, b)", lanewise2(lambda c, x, y: rot("r", x, y))))
+    for i in I:
+        if i.op.endswith(("_s", "_s_assign")):
+            i.amount_arg = "s"
+        elif i.op.endswith(("_v", "_v_assign")):
+            i.amount_arg = "b"
     return I
 
 
@@ -331,6 +336,44 @@ def mid_expected(c, x, y):
     return T.slice_(T.add(ext(x, W), T.op("sdiv", W, d, T.const(W, 2))), 0, eb)
 
 
+def mid_alt(c, x, y):
+    """the same function written the way every AVEL branch computes it:
+         midpoint(a, b) = floor((a + b) / 2) + [a > b and a + b odd]
+    (a <= b: a + floor((b-a)/2) = floor((2a + b - a)/2) = floor((a+b)/2), a+b and b-a have the same parity;
+     a > b: trunc((b-a)/2) = ceil((b-a)/2), so a + ceil((b-a)/2) = ceil((a+b)/2) = floor((a+b)/2) + [a+b odd]).
+    The sum is taken in eb+1 bits on the extended operands, the comparison in the type's own signedness."""
+    eb = c.vt.eb
+    ext = T.sext if c.vt.signed else T.zext
+    fl = T.slice_(T.add(ext(x, eb + 1), ext(y, eb + 1)), 1, eb)
+    gt = T.icmp("sgt" if c.vt.signed else "ugt", x, y)
+    odd = T.xor(T.slice_(x, 0, 1), T.slice_(y, 0, 1))
+    return T.add(fl, T.concat([T.nary("and", 1, [gt, odd]), T.const(eb - 1, 0)]))
+
+
+def check_alt_forms():
+    """the alternative closed forms must be the same function as the primary ones: exhaustive comparison of
+    the two *specification* terms on 8-bit lanes, both signednesses (a blunder in a derivation fails the
+    check as analysis-broken; the argument for wider lanes is the derivation in the docstring)"""
+    from e3 import VT
+
+    class C:
+        pass
+    n = 0
+    for kind in "ui":
+        c = C()
+        c.vt = VT(kind, 8, 1)
+        x, y = T.arg(0, 0, 8), T.arg(1, 0, 8)
+        for prim, alt in ((mid_expected, mid_alt),):
+            p, a = prim(c, x, y), alt(c, x, y)
+            for u in range(256):
+                for v in range(256):
+                    env = {"args": [u, v]}
+                    if T.ev(p, env) != T.ev(a, env):
+                        return "alternative form %s disagrees with %s at (%d, %d), %s" % (alt.__name__, prim.__name__, u, v, kind)
+                    n += 1
+    return n
+
+
 def fam_select(vt, cfg):
     I = []
     eb = vt.eb
@@ -353,6 +396,7 @@ def fam_select(vt, cfg):
         I[-1].env_ok = lanes_ok_clamp(vt)
         I.append(Inst("average", VV, "V", "avel::average(a, b)", lanewise2(avg_expected)))
         I.append(Inst("midpoint", VV, "V", "avel::midpoint(a, b)", lanewise2(mid_expected)))
+        I[-1].expect_alt = [lanewise2(mid_alt)]
         if vt.signed:
             ab = lambda c, x: T.select(T.msb(x), T.neg(x), x)
             I.append(Inst("abs", [("V", "a")], "V", "avel::abs(a)", lanewise1(ab)))
@@ -1053,7 +1097,7 @@ def fam_scalar(vt, cfg):
         args = [(KM.get(k, k), n) for k, n in i.args]
         ret = {"V": "S", "M": "B"}.get(i.ret, i.ret)
         j = Inst(i.op, args, ret, i.body, i.expect, param=i.param, pre=i.pre, judge=i.judge)
-        for attr in ("env_ok", "lane_dom", "optional"):
+        for attr in ("env_ok", "lane_dom", "optional", "expect_alt"):
             if hasattr(i, attr):
                 setattr(j, attr, getattr(i, attr))
         if getattr(i, "rettype", None):
